@@ -391,7 +391,12 @@ impl GraphEngine {
         let has_properties = runs.iter().any(|r| r.has_properties());
 
         let seg_id = SegmentId(self.next_segment_id.fetch_add(1, Ordering::Relaxed));
-        let mut seg = build_segment_from_runs(seg_id, &runs);
+        // The new segment replaces ALL existing ones: deletions recorded in the runs must also
+        // apply to relationships that earlier compactions stored in older segments, and the runs
+        // (the only place those deletions live) are discarded below.
+        vread!("published_segments", self.published_segments);
+        let old_segments = self.published_segments.read().unwrap().clone();
+        let mut seg = build_segment_from_runs(seg_id, &runs, &old_segments);
 
         {
             vwrite!("pager", self.pager);
@@ -404,45 +409,70 @@ impl GraphEngine {
         let up_to_txid = runs.iter().map(|r| r.txid()).max().unwrap_or(0);
         let epoch = self.manifest_epoch.load(Ordering::Relaxed) + 1;
 
-        let new_segments = {
-            vread!("published_segments", self.published_segments);
-            let current = self.published_segments.read().unwrap().clone();
-            let mut next = Vec::with_capacity(current.len() + 1);
-            next.push(Arc::new(seg));
-            next.extend(current.iter().cloned());
-            Arc::new(next)
-        };
+        let new_segments = Arc::new(vec![Arc::new(seg)]);
 
-        // Property Sinking: Persist properties from L0Runs into the B-Tree Property Store.
-        let mut sink_node_props = BTreeMap::new();
-        let mut sink_edge_props = BTreeMap::new();
+        // Property Sinking: fold the runs (newest first) into the B-Tree Property Store.
+        // `None` = the newest mention of the key is a removal.  A run that deleted a relationship
+        // voids every older mention of its properties, in older runs and in the store.
+        let mut sink_node_props: BTreeMap<(InternalNodeId, String), Option<_>> = BTreeMap::new();
+        let mut sink_edge_props: BTreeMap<(crate::snapshot::EdgeKey, String), Option<_>> =
+            BTreeMap::new();
+        let mut dead_edges: std::collections::BTreeSet<crate::snapshot::EdgeKey> =
+            std::collections::BTreeSet::new();
         for run in runs.iter() {
+            for (node, keys) in &run.tombstoned_node_properties {
+                for key in keys {
+                    sink_node_props.entry((*node, key.clone())).or_insert(None);
+                }
+            }
             for (node, props) in &run.node_properties {
                 for (key, val) in props {
                     sink_node_props
                         .entry((*node, key.clone()))
-                        .or_insert(val.clone());
+                        .or_insert(Some(val.clone()));
+                }
+            }
+            for (edge, keys) in &run.tombstoned_edge_properties {
+                if dead_edges.contains(edge) {
+                    continue;
+                }
+                for key in keys {
+                    sink_edge_props.entry((*edge, key.clone())).or_insert(None);
                 }
             }
             for (edge, props) in &run.edge_properties {
+                if dead_edges.contains(edge) {
+                    continue;
+                }
                 for (key, val) in props {
                     sink_edge_props
                         .entry((*edge, key.clone()))
-                        .or_insert(val.clone());
+                        .or_insert(Some(val.clone()));
                 }
             }
+            dead_edges.extend(run.iter_tombstoned_edges());
         }
 
         let mut current_root = self.properties_root.load(Ordering::SeqCst);
-        if !sink_node_props.is_empty() || !sink_edge_props.is_empty() {
+        let anything_to_sink = !sink_node_props.is_empty() || !sink_edge_props.is_empty();
+        if anything_to_sink || (current_root != 0 && !dead_edges.is_empty()) {
             vwrite!("pager", self.pager);
             let mut pager = self.pager.write().unwrap();
-            let _vh16 = vheld!("pager");
             let mut tree = if current_root == 0 {
                 BTree::create(&mut pager)?
             } else {
                 BTree::load(PageId::new(current_root))
             };
+
+            // Properties of deleted relationships (Tag 1 prefix without the property name).
+            for edge in &dead_edges {
+                let mut prefix = Vec::with_capacity(1 + 4 + 4 + 4);
+                prefix.push(1u8);
+                prefix.extend_from_slice(&edge.src.to_be_bytes());
+                prefix.extend_from_slice(&edge.rel.to_be_bytes());
+                prefix.extend_from_slice(&edge.dst.to_be_bytes());
+                btree_delete_prefix(&mut tree, &mut pager, &prefix)?;
+            }
 
             // Sink Node Properties (Tag 0)
             for ((node, key), value) in sink_node_props {
@@ -452,9 +482,13 @@ impl GraphEngine {
                 btree_key.extend_from_slice(&(key.len() as u32).to_be_bytes());
                 btree_key.extend_from_slice(key.as_bytes());
 
-                let encoded_val = value.encode();
-                let blob_id = crate::blob_store::BlobStore::write(&mut pager, &encoded_val)?;
-                tree.insert(&mut pager, &btree_key, blob_id)?;
+                // The store holds one value per key: drop what is superseded or removed.
+                btree_delete_prefix(&mut tree, &mut pager, &btree_key)?;
+                if let Some(value) = value {
+                    let encoded_val = value.encode();
+                    let blob_id = crate::blob_store::BlobStore::write(&mut pager, &encoded_val)?;
+                    tree.insert(&mut pager, &btree_key, blob_id)?;
+                }
             }
 
             // Sink Edge Properties (Tag 1)
@@ -467,12 +501,32 @@ impl GraphEngine {
                 btree_key.extend_from_slice(&(key.len() as u32).to_be_bytes());
                 btree_key.extend_from_slice(key.as_bytes());
 
-                let encoded_val = value.encode();
-                let blob_id = crate::blob_store::BlobStore::write(&mut pager, &encoded_val)?;
-                tree.insert(&mut pager, &btree_key, blob_id)?;
+                btree_delete_prefix(&mut tree, &mut pager, &btree_key)?;
+                if let Some(value) = value {
+                    let encoded_val = value.encode();
+                    let blob_id = crate::blob_store::BlobStore::write(&mut pager, &encoded_val)?;
+                    tree.insert(&mut pager, &btree_key, blob_id)?;
+                }
             }
 
             current_root = tree.root().as_u64();
+        }
+
+        // Node deletions live only in the runs, which are discarded below: record them in the
+        // node table so that the nodes stay deleted afterwards.
+        {
+            vlock!("idmap", self.idmap);
+            let mut idmap = self.idmap.lock().unwrap();
+            vwrite!("pager", self.pager);
+            let mut pager = self.pager.write().unwrap();
+            for run in runs.iter() {
+                for node in run.iter_tombstoned_nodes() {
+                    idmap.mark_tombstoned(&mut pager, node)?;
+                }
+            }
+            // Everything written since the segment was persisted must be durable before the
+            // manifest / checkpoint record below allows recovery to rely on it.
+            pager.sync()?;
         }
 
         // Statistics Collection - read directly from IdMap for accuracy
@@ -693,7 +747,39 @@ impl GraphEngine {
     }
 }
 
-fn build_segment_from_runs(seg_id: SegmentId, runs: &Arc<Vec<Arc<L0Run>>>) -> CsrSegment {
+/// Deletes every entry whose key starts with `prefix` (an exact key is its own prefix: property
+/// keys end with the length-prefixed property name, so no other key extends them).
+fn btree_delete_prefix(tree: &mut BTree, pager: &mut Pager, prefix: &[u8]) -> Result<()> {
+    loop {
+        let found = {
+            let mut cursor = tree.cursor_lower_bound(pager, prefix)?;
+            if cursor.is_valid()? {
+                let key = cursor.key()?;
+                if key.starts_with(prefix) {
+                    Some((key, cursor.payload()?))
+                } else {
+                    None
+                }
+            } else {
+                None
+            }
+        };
+        match found {
+            Some((key, payload)) => {
+                if !tree.delete(pager, &key, payload)? {
+                    return Err(Error::StorageCorrupted("property store entry vanished"));
+                }
+            }
+            None => return Ok(()),
+        }
+    }
+}
+
+fn build_segment_from_runs(
+    seg_id: SegmentId,
+    runs: &Arc<Vec<Arc<L0Run>>>,
+    old_segments: &[Arc<CsrSegment>],
+) -> CsrSegment {
     // Apply the same semantics as snapshot merge: newest->oldest, key-based tombstones.
     use std::collections::{BTreeMap, HashSet};
 
@@ -717,6 +803,29 @@ fn build_segment_from_runs(seg_id: SegmentId, runs: &Arc<Vec<Arc<L0Run>>>) -> Cs
         // As on the read path, a run's edge tombstones only hide *older* data: an edge that
         // is still present in the same run was re-created after the delete.
         blocked_edges.extend(run.iter_tombstoned_edges());
+    }
+
+    // Older, already compacted relationships survive unless a run deleted them or an endpoint.
+    for seg in old_segments {
+        if seg.edges.is_empty() {
+            continue;
+        }
+        for src in seg.min_src..=seg.max_src {
+            for e in seg.neighbors(src, None) {
+                let e = crate::snapshot::EdgeKey {
+                    src: e.src,
+                    rel: e.rel,
+                    dst: e.dst,
+                };
+                if blocked_nodes.contains(&e.src) || blocked_nodes.contains(&e.dst) {
+                    continue;
+                }
+                if blocked_edges.contains(&e) {
+                    continue;
+                }
+                edges.push(e);
+            }
+        }
     }
 
     edges.sort();
